@@ -423,6 +423,8 @@ tzm_add_mn(const char *mn, size_t mz, znoff_t off)
 
 static unsigned int exst_only_p;
 static const char *check_fn;
+/* names that could not be mapped because the map format cannot hold them */
+static size_t nunmapped;
 
 static bool
 tzdir_zone_p(const char *zn, size_t zz)
@@ -479,6 +481,12 @@ Warning: zone `%.*s' skipped: not present in global zone database",
 		return NUL_ZNOFF;
 	} else if ((znp = tzm_find_zn(lp, ln + lz - lp)) == -1U) {
 		/* brilliant, can't add anything */
+		return NUL_ZNOFF;
+	} else if (UNLIKELY(znp > 0xffffU)) {
+		/* a mapped name can only hold 16 bits of zone offset */
+		error("\
+Error: cannot map `%s': zone name pool exhausted", ln);
+		nunmapped++;
 		return NUL_ZNOFF;
 	}
 	tzm_add_mn(ln, lp - ln - 1U, znp);
@@ -696,6 +704,10 @@ cmd_cc(const struct yuck_cmd_cc_s argi[static 1U])
 
 	if (parse_file(argi->args[0U]) < 0) {
 		error("cannot read file `%s'", *argi->args ?: "stdin");
+		rc = 1;
+		goto out;
+	} else if (nunmapped) {
+		/* a map that silently lacks names is worse than no map */
 		rc = 1;
 		goto out;
 	} else if ((outf = argi->output_arg ?: "tzcc.tzm", false)) {
